@@ -100,6 +100,10 @@ type vWorld struct {
 	storeHead uint64
 	tail      uint64
 	missing   map[uint64]bool // headers at or below storeHead that are not in the store yet (cfg.Lag)
+	// heights that failed at least once without a sampler call (missing header): such a failure
+	// and the retries that follow can all happen inside one event while the clock advances, so
+	// the per-event back-off oracle cannot time them
+	instantFail map[uint64]bool
 
 	ds     *vDatastore
 	subCh  chan *header.ExtendedHeader
@@ -169,6 +173,10 @@ func (s vStore) GetByHeight(ctx context.Context, h uint64) (*header.ExtendedHead
 		// the worker records the height as failed without ever calling the sampler
 		s.w.mu.Lock()
 		s.w.everFail[h] = true
+		if s.w.instantFail == nil {
+			s.w.instantFail = map[uint64]bool{}
+		}
+		s.w.instantFail[h] = true
 		s.w.mu.Unlock()
 		return nil, fmt.Errorf("verif store: header %d not synced yet: %w", h, libhead.ErrNotFound)
 	}
@@ -792,6 +800,12 @@ func (s *dasSys) observe() {
 		}
 		h := ws.from
 		a := cs.inRetry[h]
+		s.w.mu.Lock()
+		instant := s.w.instantFail[h]
+		s.w.mu.Unlock()
+		if instant {
+			continue // several fail/retry cycles of h may lie inside the last event
+		}
 		t, ok := s.reportedFailAt[h]
 		if !ok || a.count < 1 {
 			continue // resumed from a checkpoint: retried at once by design
